@@ -357,6 +357,35 @@ func checkC20(c *core.Ctx, l *core.Ledger) {
 	// are filepath.Join(FS.root, relative name). Rel inverts the Join only if both roots are the same value.
 	if f := c.SSAFunc(c.LookupFunc("internal/git", "Compare")); f != nil {
 		var gitDirs, roots []string
+		// the root field of the git file system: the one FS.Abs joins relative names to
+		rootField := ""
+		if g := c.SSAFunc(c.LookupFunc("internal/git", "FS.Abs")); g != nil {
+			core.Instrs(g, func(in ssa.Instruction) {
+				if call, ok := in.(*ssa.Call); ok && core.IsCallTo(call, "path/filepath", "Join") && len(call.Call.Args) == 1 {
+					// variadic: the first element stored into the argument array
+					if sl, ok := call.Call.Args[0].(*ssa.Slice); ok {
+						if al, ok := sl.X.(*ssa.Alloc); ok {
+							for _, r := range *al.Referrers() {
+								ia, ok := r.(*ssa.IndexAddr)
+								if !ok {
+									continue
+								}
+								if k, isK := core.ConstInt(ia.Index); !isK || k != 0 {
+									continue
+								}
+								for _, rr := range *ia.Referrers() {
+									if st, ok := rr.(*ssa.Store); ok {
+										if fld, _ := core.LoadedField(st.Val); fld != nil {
+											rootField = fld.Name()
+										}
+									}
+								}
+							}
+						}
+					}
+				}
+			})
+		}
 		core.WalkInlined(f, func(caller, callee *ssa.Function) bool { return callee.Pkg == f.Pkg }, func(in ssa.Instruction, via []*ssa.Call) {
 			st, ok := in.(*ssa.Store)
 			if !ok {
@@ -374,13 +403,13 @@ func checkC20(c *core.Ctx, l *core.Ledger) {
 			switch {
 			case fld.Name() == "GitDir" && strings.HasSuffix(owner, "compare.Pass"):
 				gitDirs = append(gitDirs, core.Sym(st.Val))
-			case fld.Name() == "root" && strings.HasSuffix(owner, "git.FS"):
+			case rootField != "" && fld.Name() == rootField && strings.HasSuffix(owner, "git.FS"):
 				roots = append(roots, core.Sym(st.Val))
 			}
 		})
 		var why []string
 		if len(gitDirs) == 0 || len(roots) == 0 {
-			why = append(why, fmt.Sprintf("anchors not found (stores to Pass.GitDir: %d, to FS.root: %d)", len(gitDirs), len(roots)))
+			why = append(why, fmt.Sprintf("anchors not found (stores to Pass.GitDir: %d, to the field FS.Abs joins names to (%q): %d)", len(gitDirs), rootField, len(roots)))
 		}
 		for _, r := range roots {
 			for _, g := range gitDirs {
